@@ -451,13 +451,17 @@ class Queue(Greenlet):
         for i, entry in enumerate(self.queued):
             timestamp, entry_id = entry
             if now >= timestamp:
-                self._pool_spawn('store', self._dequeue, entry_id)
                 last_i = i+1
             else:
                 break
         if last_i > 0:
+            # Update the timetable before dispatching: spawning can block on
+            # a bounded pool, and the list must not change under the scan.
+            ready = self.queued[:last_i]
             self.queued = self.queued[last_i:]
             self.queued_ids = set([id for _, id in self.queued])
+            for _, entry_id in ready:
+                self._pool_spawn('store', self._dequeue, entry_id)
 
     def _wait_store(self):
         while True:
@@ -492,10 +496,13 @@ class Queue(Greenlet):
         self.wake.clear()
         self.queued_lock.acquire()
         try:
-            for entry in self.queued:
-                self._pool_spawn('store', self._dequeue, entry[1])
+            # Empty the timetable first: spawning can block on a bounded
+            # pool, and entries added meanwhile must not be dropped.
+            entries = self.queued
             self.queued = []
             self.queued_ids = set()
+            for entry in entries:
+                self._pool_spawn('store', self._dequeue, entry[1])
         finally:
             self.queued_lock.release()
 
